@@ -94,6 +94,9 @@ def general(draw, max_classes=4, max_nodes=7, max_props=4, max_stmts=30, bnodes=
         # two classes with one local name in different namespaces (foaf:Person / schema:Person)
         classes = [["iri", NS[j % len(NS)] + "C%d" % (j // 2)] if c[0] == "iri" else c for j, c in enumerate(classes)]
     props = [prop_iri(i) for i in range(n_props)]
+    if "shared_locals" in quirks:
+        # the same local name in two namespaces (ex:p0 and ns:p0): a prefixed spelling means different IRIs under different bindings
+        props = props + [(NS[0] if p.startswith(NS[1]) else NS[1]) + p.rsplit("/", 1)[1] for p in props]
     if hash_props:
         props = props + ["http://ex.org/voc#h0", "http://ex.org/ns/voc#h1"]
     if unicode_iris:
@@ -172,7 +175,7 @@ def call_history(draw, thr, one_in=6):
             for _ in range(draw(st.integers(1, 2)))]
 
 
-QUIRKS = ["iri_like_literals", "class_typing", "hash_props", "unicode_iris", "colon_locals", "odd_schemes", "ns_iris"]
+QUIRKS = ["iri_like_literals", "class_typing", "hash_props", "unicode_iris", "colon_locals", "odd_schemes", "ns_iris", "shared_locals"]
 
 
 @st.composite
